@@ -490,6 +490,15 @@ func (b *assignmentBuilder) typeName(t types.Type) string {
 	})
 }
 
+// castExpr returns the given type name in the form that can be applied to a value:
+// a conversion to a pointer type has to be parenthesized.
+func castExpr(typeName string) string {
+	if len(typeName) > 0 && typeName[0] == '*' {
+		return "(" + typeName + ")"
+	}
+	return typeName
+}
+
 // isExternalPkg returns true if the given package is not the current package.
 func (b *assignmentBuilder) isExternalPkg(pkg *types.Package) bool {
 	if pkg == nil {
@@ -677,7 +686,7 @@ func (b *assignmentBuilder) sliceToSlice(lhs, rhs bmodel.Node) (a gmodel.Assignm
 			LHS:  lhs.AssignExpr(),
 			RHS:  rhs.AssignExpr(),
 			Typ:  "[]" + b.typeName(lhsElem),
-			Cast: b.typeName(lhsElem),
+			Cast: castExpr(b.typeName(lhsElem)),
 		}
 		return
 	}
